@@ -3,6 +3,122 @@ what counts as a non-trivial case, the theorems, and the classifier that turns a
 into a signature for known_findings.json."""
 
 PROPS = {
+    'C01': {   'assumptions': [   'series/total/limits below 2^53 (float64 products exact in Base/Float64.v); int32/int64 overflow not modelled',
+                       'explorer objects are not mutated within a cycle (value semantics; validated by the differential run)',
+                       'time.Now() drift during the run is far below the idle-age margins used by the generator'],
+    'engines': [('coord', 1200, 24000, ['-propok', 'c01_case', '-shardsize', '100'])],
+    'level_note': 'Trusted: Coq kernel; hand-written cycle model tied to the Go code by differential runs under all schedules; generated constants; '
+                  'Go harness and driver. ',
+    'level_text': 'Proof: C01_no_orphan and C01_taken_only_if are proved for the Gallina model of the whole cycle for every option setting, number '
+                  'of shards, combination of scripted replies (incl. failing/skipped POSTs) and every schedule; closed under the global context. The '
+                  "same boolean vocabulary is evaluated as a monitor on the real coordinator's POST bodies.",
+    'rule': 'one PRNG: 1-4 shards (1-6 thorough), 0-5 targets (0-7) over 1-2 jobs; each shard independently ready / status-GET fails / runtime-GET '
+            'fails / hash differs with push accepted, rejected, still different, re-check failing (65% in sync); per copy state, health, scrape '
+            'count from {0,1,2,3,4,5,9}; series/total around the limits (L-1,L,L+1,L/2,...; total >> series); reported loads consistent, at the '
+            'limits, at the relief thresholds (1.1,1.4,1.6,1.8 x), tied with shard 0 on purpose; idle ages 30s..100000s vs max-idle 0/60/3600; '
+            'min/max shard around the current count; explorer results present/absent/bad/unknown; failing POSTs and failing early scale request; '
+            'malformed stream: min>max, max_proc=0. Membership under ALL schedules of the model (enumerated, budget 6000). non-trivial = the cycle '
+            'sent at least one target POST or requested a scale different from the current count; distinct by input',
+    'theorems': 'C01_no_orphan C01_taken_only_if',
+    'trusted_base': [   'model Model/Coordinator.v hand-written from rebalance.go/coordinator.go/shard.go; tie = differential run of the real '
+                        'Coordinator (hook VerifRunOnce) against scripted shards through Shard.APIGet/APIPost, compared under every schedule of the '
+                        'model',
+                        'Gen/Consts.v regenerated from the Go source by kvharness translate (minWaitScrapeTimes, relief threshold table as exact '
+                        'binary64)',
+                        'Go map iteration = any permutation, weightedrand.Pick = any eligible shard (Base/Sched.v)']},
+    'C04': {   'assumptions': [   'series/total/limits below 2^53 (float64 products exact in Base/Float64.v); int32/int64 overflow not modelled',
+                       'explorer objects are not mutated within a cycle (value semantics; validated by the differential run)',
+                       'time.Now() drift during the run is far below the idle-age margins used by the generator'],
+    'engines': [('coord', 1200, 24000, ['-propok', 'c04_case', '-shardsize', '100'])],
+    'level_note': 'Trusted: Coq kernel; hand-written cycle model tied to the Go code by differential runs under all schedules; generated constants; '
+                  'Go harness and driver. Partial (see level text).',
+    'level_text': "Proof: every placement event of the model cycle satisfies both limits strictly w.r.t. the destination's running load (C04_fits), "
+                  'first assignments never concern an oversized target; for all inputs and schedules. Partial: that the recorded running load equals '
+                  'reported load plus earlier placements is by construction of the model (mk_event reads the plan) and validated differentially, not '
+                  'yet a separate theorem; "never causes a scale-up" is checked by the monitor, not yet a theorem.',
+    'rule': 'one PRNG: 1-4 shards (1-6 thorough), 0-5 targets (0-7) over 1-2 jobs; each shard independently ready / status-GET fails / runtime-GET '
+            'fails / hash differs with push accepted, rejected, still different, re-check failing (65% in sync); per copy state, health, scrape '
+            'count from {0,1,2,3,4,5,9}; series/total around the limits (L-1,L,L+1,L/2,...; total >> series); reported loads consistent, at the '
+            'limits, at the relief thresholds (1.1,1.4,1.6,1.8 x), tied with shard 0 on purpose; idle ages 30s..100000s vs max-idle 0/60/3600; '
+            'min/max shard around the current count; explorer results present/absent/bad/unknown; failing POSTs and failing early scale request; '
+            'malformed stream: min>max, max_proc=0. Membership under ALL schedules of the model (enumerated, budget 6000). non-trivial = the cycle '
+            'sent at least one target POST or requested a scale different from the current count; distinct by input',
+    'theorems': 'C04_fits C04_oversized_never_assigned',
+    'trusted_base': [   'model Model/Coordinator.v hand-written from rebalance.go/coordinator.go/shard.go; tie = differential run of the real '
+                        'Coordinator (hook VerifRunOnce) against scripted shards through Shard.APIGet/APIPost, compared under every schedule of the '
+                        'model',
+                        'Gen/Consts.v regenerated from the Go source by kvharness translate (minWaitScrapeTimes, relief threshold table as exact '
+                        'binary64)',
+                        'Go map iteration = any permutation, weightedrand.Pick = any eligible shard (Base/Sched.v)']},
+    'C05': {   'assumptions': [   'series/total/limits below 2^53 (float64 products exact in Base/Float64.v); int32/int64 overflow not modelled',
+                       'explorer objects are not mutated within a cycle (value semantics; validated by the differential run)',
+                       'time.Now() drift during the run is far below the idle-age margins used by the generator'],
+    'engines': [('coord', 1200, 24000, ['-propok', 'c05_case', '-shardsize', '100'])],
+    'level_note': 'Trusted: Coq kernel; hand-written cycle model tied to the Go code by differential runs under all schedules; generated constants; '
+                  'Go harness and driver. Partial (history form not composed).',
+    'level_text': "Proof: one-cycle hand-over theorem with the README's literal 3 (needs the generated constant min_wait = 3; the obligation breaks "
+                  'if the Go constant changes), for all inputs and schedules. Partial: the closed-loop "no gap" form (counter restart on the '
+                  "sidecar, C10) is covered by C10's theorems and the loop engine, not composed into one theorem.",
+    'rule': 'one PRNG: 1-4 shards (1-6 thorough), 0-5 targets (0-7) over 1-2 jobs; each shard independently ready / status-GET fails / runtime-GET '
+            'fails / hash differs with push accepted, rejected, still different, re-check failing (65% in sync); per copy state, health, scrape '
+            'count from {0,1,2,3,4,5,9}; series/total around the limits (L-1,L,L+1,L/2,...; total >> series); reported loads consistent, at the '
+            'limits, at the relief thresholds (1.1,1.4,1.6,1.8 x), tied with shard 0 on purpose; idle ages 30s..100000s vs max-idle 0/60/3600; '
+            'min/max shard around the current count; explorer results present/absent/bad/unknown; failing POSTs and failing early scale request; '
+            'malformed stream: min>max, max_proc=0. Membership under ALL schedules of the model (enumerated, budget 6000). non-trivial = the cycle '
+            'sent at least one target POST or requested a scale different from the current count; distinct by input',
+    'theorems': 'C05_handover C05_threshold_is_documented',
+    'trusted_base': [   'model Model/Coordinator.v hand-written from rebalance.go/coordinator.go/shard.go; tie = differential run of the real '
+                        'Coordinator (hook VerifRunOnce) against scripted shards through Shard.APIGet/APIPost, compared under every schedule of the '
+                        'model',
+                        'Gen/Consts.v regenerated from the Go source by kvharness translate (minWaitScrapeTimes, relief threshold table as exact '
+                        'binary64)',
+                        'Go map iteration = any permutation, weightedrand.Pick = any eligible shard (Base/Sched.v)']},
+    'C07': {   'assumptions': [   'series/total/limits below 2^53 (float64 products exact in Base/Float64.v); int32/int64 overflow not modelled',
+                       'explorer objects are not mutated within a cycle (value semantics; validated by the differential run)',
+                       'time.Now() drift during the run is far below the idle-age margins used by the generator'],
+    'engines': [('coord', 1200, 24000, ['-propok', 'c07_case', '-shardsize', '100'])],
+    'level_note': 'Trusted: Coq kernel; hand-written cycle model tied to the Go code by differential runs under all schedules; generated constants; '
+                  'Go harness and driver. Partial (keeps-used theorem pending).',
+    'level_text': 'Proof: every scale request of the model cycle (early and final) lies in [min,max]; the early request is always a raise. Partial: '
+                  '"never below the last shard in use / no shrink when space is needed" is decided by the monitor on the implementation '
+                  '(c07_used_ok) and by the correspondence; its model theorem is not yet proved.',
+    'rule': 'one PRNG: 1-4 shards (1-6 thorough), 0-5 targets (0-7) over 1-2 jobs; each shard independently ready / status-GET fails / runtime-GET '
+            'fails / hash differs with push accepted, rejected, still different, re-check failing (65% in sync); per copy state, health, scrape '
+            'count from {0,1,2,3,4,5,9}; series/total around the limits (L-1,L,L+1,L/2,...; total >> series); reported loads consistent, at the '
+            'limits, at the relief thresholds (1.1,1.4,1.6,1.8 x), tied with shard 0 on purpose; idle ages 30s..100000s vs max-idle 0/60/3600; '
+            'min/max shard around the current count; explorer results present/absent/bad/unknown; failing POSTs and failing early scale request; '
+            'malformed stream: min>max, max_proc=0. Membership under ALL schedules of the model (enumerated, budget 6000). non-trivial = the cycle '
+            'sent at least one target POST or requested a scale different from the current count; distinct by input',
+    'theorems': 'C07_bounds C07_early_request_raises',
+    'trusted_base': [   'model Model/Coordinator.v hand-written from rebalance.go/coordinator.go/shard.go; tie = differential run of the real '
+                        'Coordinator (hook VerifRunOnce) against scripted shards through Shard.APIGet/APIPost, compared under every schedule of the '
+                        'model',
+                        'Gen/Consts.v regenerated from the Go source by kvharness translate (minWaitScrapeTimes, relief threshold table as exact '
+                        'binary64)',
+                        'Go map iteration = any permutation, weightedrand.Pick = any eligible shard (Base/Sched.v)']},
+    'C08': {   'assumptions': [   'series/total/limits below 2^53 (float64 products exact in Base/Float64.v); int32/int64 overflow not modelled',
+                       'explorer objects are not mutated within a cycle (value semantics; validated by the differential run)',
+                       'time.Now() drift during the run is far below the idle-age margins used by the generator'],
+    'engines': [('coord', 1200, 24000, ['-propok', 'c08_case', '-shardsize', '100'])],
+    'level_note': 'Trusted: Coq kernel; hand-written cycle model tied to the Go code by differential runs under all schedules; generated constants; '
+                  'Go harness and driver. "not assigned a second time elsewhere" is decided by the monitor; the model theorem for it is pending.',
+    'level_text': 'Proof: a shard that is not in sync gets exactly the synchronisation requests, no POST, and is never a destination; every '
+                  'destination is in sync; the sync protocol is characterised as a decision tree (iff statements); the full request log shape is '
+                  'proved. For all inputs and schedules.',
+    'rule': 'one PRNG: 1-4 shards (1-6 thorough), 0-5 targets (0-7) over 1-2 jobs; each shard independently ready / status-GET fails / runtime-GET '
+            'fails / hash differs with push accepted, rejected, still different, re-check failing (65% in sync); per copy state, health, scrape '
+            'count from {0,1,2,3,4,5,9}; series/total around the limits (L-1,L,L+1,L/2,...; total >> series); reported loads consistent, at the '
+            'limits, at the relief thresholds (1.1,1.4,1.6,1.8 x), tied with shard 0 on purpose; idle ages 30s..100000s vs max-idle 0/60/3600; '
+            'min/max shard around the current count; explorer results present/absent/bad/unknown; failing POSTs and failing early scale request; '
+            'malformed stream: min>max, max_proc=0. Membership under ALL schedules of the model (enumerated, budget 6000). non-trivial = the cycle '
+            'sent at least one target POST or requested a scale different from the current count; distinct by input',
+    'theorems': 'C08_left_alone C08_destinations_in_sync C08_log_shapes C08_insync_iff C08_push_iff C08_full_log',
+    'trusted_base': [   'model Model/Coordinator.v hand-written from rebalance.go/coordinator.go/shard.go; tie = differential run of the real '
+                        'Coordinator (hook VerifRunOnce) against scripted shards through Shard.APIGet/APIPost, compared under every schedule of the '
+                        'model',
+                        'Gen/Consts.v regenerated from the Go source by kvharness translate (minWaitScrapeTimes, relief threshold table as exact '
+                        'binary64)',
+                        'Go map iteration = any permutation, weightedrand.Pick = any eligible shard (Base/Sched.v)']},
     'C18': {
         'engines': [('k8s', 600, 12000)],
         'rule': 'cases from one PRNG: 60% ChangeScale (old,new in 0..6 (0..13 thorough), 0-3 templates, flag, claims present/missing/'
@@ -27,6 +143,12 @@ def classify(prop, engine, case):
     """signature of a failing case; must be stable and specific enough that a different violation
     of the same property gets a different signature"""
     inp = case.get('input') or {}
+    if engine == 'coord':
+        ob = case.get('observed') or {}
+        n = len(inp.get('Shards') or [])
+        sc = ob.get('Scales') or []
+        tag = 'panic' if ob.get('Panic') else ('early-request' if len(sc) > 1 else ('scale-below-current' if sc and sc[-1] < n else 'plan'))
+        return '%s-coord-%s' % (prop, tag)
     if prop == 'C18':
         return 'k8s-' + str(inp.get('Kind'))
     return engine + '-unclassified'
